@@ -11,6 +11,12 @@ type, route function, directory), every session, every message (any route string
 any id, decodable or not) — and, for the history theorems, every finite sequence of
 requests from any number of connections interleaved with the passing of time.
 
+Request ids: the id on the wire is a varint of up to 64 bits, the envelope field is 32 bits
+(`serve` truncates, as `SessionsImpl.ProcessMessage` does).  The per-request theorems carry the
+hypothesis `msg.id < 2^32` (`idWrap`); the full statement without it is `RequestOneResponse`, which is
+refuted (`request_one_response_full_fails`, known finding D19 `C02/request-id-truncated`);
+`request_answered_with_truncated_id` says what happens instead.
+
 Hypotheses that are explicit (and why):
 * handler behaviours complete exactly once (`Beh` has no "never" / "twice" member);
 * a back-end reply that is not the `msgs.Response` built by `ProcessForwardMsg`
@@ -25,27 +31,51 @@ open Cell2v.ClientServe
 
 /-! ## (1) exactly one response, same connection, same id -/
 
-/-- A request (id ≠ 0) produces exactly one Response effect; it is written on the connection the
-request came from and carries the request's id — for EVERY route string, payload, session state,
-handler table, route function and directory. -/
-theorem request_one_response (c : Cfg) (s : Sess) (msg : ClientMsg) (hid : msg.id ≠ 0) :
+/-- THE FULL STATEMENT: every request (id ≠ 0 on the wire) produces exactly one Response effect, on
+the connection the request came from, carrying the request's id.  It does NOT hold for the code as
+it is (D19, known finding `C02/request-id-truncated`); see `request_one_response_full_fails`. -/
+def RequestOneResponse : Prop :=
+  ∀ (c : Cfg) (s : Sess) (msg : ClientMsg), msg.id ≠ 0 →
+    ∃ d res, responses (serve c s msg) = [(d, s.sid, msg.id, res)]
+
+/-- The part that holds: a request whose id fits the 32-bit envelope field (0 < id < 2^32) produces
+exactly one Response effect; it is written on the connection the request came from and carries the
+request's id — for EVERY route string, payload, session state, handler table, route function and
+directory. -/
+theorem request_one_response_partial (c : Cfg) (s : Sess) (msg : ClientMsg) (hid : msg.id ≠ 0)
+    (hlt : msg.id < idWrap) :
     ∃ d res, responses (serve c s msg) = [(d, s.sid, msg.id, res)] := by
-  obtain ⟨d, res, _, h⟩ := responses_serve_request c s msg hid
+  have hm : msg.id % idWrap = msg.id := Nat.mod_eq_of_lt hlt
+  obtain ⟨d, res, _, h⟩ := responses_serve_request c s msg (by rw [hm]; exact hid)
+  rw [hm] at h
   exact ⟨d, res, h⟩
+
+/-- What the code does for ANY wire id: the envelope carries `id mod 2^32`; if that is non-zero the
+client gets exactly one response, with the truncated id; if it is zero the message is handled as a
+notification (handler runs, nothing is written). -/
+theorem request_answered_with_truncated_id (c : Cfg) (s : Sess) (msg : ClientMsg) :
+    (msg.id % idWrap ≠ 0 → ∃ d res, responses (serve c s msg) = [(d, s.sid, msg.id % idWrap, res)]) ∧
+    (msg.id % idWrap = 0 → responses (serve c s msg) = []) := by
+  constructor
+  · intro h
+    obtain ⟨d, res, _, hr⟩ := responses_serve_request c s msg h
+    exact ⟨d, res, hr⟩
+  · intro h
+    exact responses_serve_notify fixed c s msg h
 
 /-- The serviceable case in full: the handler body runs once, at the target (`target`: the front
 itself iff the route names the front's own type, otherwise the live instance of that type which
 the route function selects from the session), and the single response carries exactly what that
 handler completed with — unless a forwarded handler takes longer than the 30 s request timeout,
 in which case the single response is the timeout error. -/
-theorem request_served_by_target (c : Cfg) (s : Sess) (msg : ClientMsg) (hid : msg.id ≠ 0)
+theorem request_served_by_target (c : Cfg) (s : Sess) (msg : ClientMsg) (hid : msg.id ≠ 0) (hlt : msg.id < idWrap)
     (svc g m : String) (v : Nat) (b : Beh) (h : served c s msg = some (svc, g, m, v, b)) :
     target c s (splitClientRoute msg.route).1 = some svc ∧
     serve c s msg =
       if (splitClientRoute msg.route).1 ≠ c.frontType ∧ requestTimeout < (behResult svc g m v b).1 then
         [.invoke svc g m v, .respond timeoutMs s.sid msg.id .error]
       else [.invoke svc g m v, .respond (behResult svc g m v b).1 s.sid msg.id (behResult svc g m v b).2] := by
-  refine ⟨?_, serve_served c s msg hid svc g m v b h⟩
+  refine ⟨?_, by rw [serve_eq_process c s msg hlt]; exact process_served c s msg hid svc g m v b h⟩
   unfold served at h
   simp only at h
   split at h
@@ -82,17 +112,18 @@ theorem target_spec (c : Cfg) (s : Sess) (t svc : String) (h : target c s t = so
 
 /-- Whatever data a client ever receives in answer to a request was produced by the target of
 that request's route: the origin of every data response is `target`. -/
-theorem response_origin_is_target (c : Cfg) (s : Sess) (msg : ClientMsg) (hid : msg.id ≠ 0)
+theorem response_origin_is_target (c : Cfg) (s : Sess) (msg : ClientMsg) (hid : msg.id ≠ 0) (hlt : msg.id < idWrap)
     (d cn i : Nat) (o g m : String) (v : Nat)
     (hmem : (d, cn, i, Result.data o g m v) ∈ responses (serve c s msg)) :
     target c s (splitClientRoute msg.route).1 = some o := by
   cases h : served c s msg with
   | none =>
-    obtain ⟨d', _, he⟩ := serve_unserved c s msg hid h
+    obtain ⟨d', _, he⟩ := process_unserved c s msg hid h
+    rw [serve_eq_process c s msg hlt] at hmem
     simp [he, responses] at hmem
   | some x =>
     obtain ⟨svc, g', m', v', b⟩ := x
-    obtain ⟨ht, he⟩ := request_served_by_target c s msg hid svc g' m' v' b h
+    obtain ⟨ht, he⟩ := request_served_by_target c s msg hid hlt svc g' m' v' b h
     rw [he] at hmem
     split at hmem
     · simp [responses] at hmem
@@ -134,47 +165,47 @@ theorem mismatched_reply_dropped (s : Sess) (msg : ClientMsg) (d : Nat) (rep : B
 
 /-- Every request that is not serviceable — whatever the reason — gets exactly one response, an
 error, and no handler runs. -/
-theorem unserviceable_gets_error (c : Cfg) (s : Sess) (msg : ClientMsg) (hid : msg.id ≠ 0)
+theorem unserviceable_gets_error (c : Cfg) (s : Sess) (msg : ClientMsg) (hid : msg.id ≠ 0) (hlt : msg.id < idWrap)
     (h : served c s msg = none) :
     ∃ d, serve c s msg = [.respond d s.sid msg.id .error] := by
-  obtain ⟨d, _, he⟩ := serve_unserved c s msg hid h
-  exact ⟨d, he⟩
+  obtain ⟨d, _, he⟩ := process_unserved c s msg hid h
+  exact ⟨d, by rw [serve_eq_process c s msg hlt]; exact he⟩
 
 /-- no reachable target: the route function names nothing, an unknown name, a dead instance or an
 instance of another type -/
-theorem no_target_gets_error (c : Cfg) (s : Sess) (msg : ClientMsg) (hid : msg.id ≠ 0)
+theorem no_target_gets_error (c : Cfg) (s : Sess) (msg : ClientMsg) (hid : msg.id ≠ 0) (hlt : msg.id < idWrap)
     (h : target c s (splitClientRoute msg.route).1 = none) :
     ∃ d, serve c s msg = [.respond d s.sid msg.id .error] :=
-  unserviceable_gets_error c s msg hid (by simp [served, h])
+  unserviceable_gets_error c s msg hid hlt (by simp [served, h])
 
 /-- unknown group or method at the target -/
-theorem unknown_method_gets_error (c : Cfg) (s : Sess) (msg : ClientMsg) (hid : msg.id ≠ 0)
+theorem unknown_method_gets_error (c : Cfg) (s : Sess) (msg : ClientMsg) (hid : msg.id ≠ 0) (hlt : msg.id < idWrap)
     (h : c.handlers (splitClientRoute msg.route).1 (splitClientRoute msg.route).2.1 (splitClientRoute msg.route).2.2 = none) :
     ∃ d, serve c s msg = [.respond d s.sid msg.id .error] :=
-  unserviceable_gets_error c s msg hid (by simp only [served, h]; split <;> rfl)
+  unserviceable_gets_error c s msg hid hlt (by simp only [served, h]; split <;> rfl)
 
 /-- undecodable payload -/
-theorem undecodable_gets_error (c : Cfg) (s : Sess) (msg : ClientMsg) (hid : msg.id ≠ 0)
+theorem undecodable_gets_error (c : Cfg) (s : Sess) (msg : ClientMsg) (hid : msg.id ≠ 0) (hlt : msg.id < idWrap)
     (h : msg.pay = .undecodable) :
     ∃ d, serve c s msg = [.respond d s.sid msg.id .error] :=
-  unserviceable_gets_error c s msg hid (by
+  unserviceable_gets_error c s msg hid hlt (by
     simp only [served, h]
     split
     · rfl
     · split <;> simp_all)
 
 /-- a request sent to a notify-shaped method (repaired defect D4b) -/
-theorem request_to_notify_method_gets_error (c : Cfg) (s : Sess) (msg : ClientMsg) (hid : msg.id ≠ 0) (b : Beh)
+theorem request_to_notify_method_gets_error (c : Cfg) (s : Sess) (msg : ClientMsg) (hid : msg.id ≠ 0) (hlt : msg.id < idWrap) (b : Beh)
     (h : c.handlers (splitClientRoute msg.route).1 (splitClientRoute msg.route).2.1 (splitClientRoute msg.route).2.2
       = some ⟨.notify, b⟩) :
     ∃ d, serve c s msg = [.respond d s.sid msg.id .error] :=
-  unserviceable_gets_error c s msg hid (by
+  unserviceable_gets_error c s msg hid hlt (by
     simp only [served, h]
     split <;> rfl)
 
 /-- a malformed route (not exactly three dot-separated parts) — as long as nobody registered a
 handler for the empty type/group/method -/
-theorem malformed_route_gets_error (c : Cfg) (s : Sess) (msg : ClientMsg) (hid : msg.id ≠ 0)
+theorem malformed_route_gets_error (c : Cfg) (s : Sess) (msg : ClientMsg) (hid : msg.id ≠ 0) (hlt : msg.id < idWrap)
     (hbad : (splitDots msg.route).length ≠ 3) (hnone : c.handlers "" "" "" = none) :
     ∃ d, serve c s msg = [.respond d s.sid msg.id .error] := by
   have hs : splitClientRoute msg.route = ("", "", "") := by
@@ -184,14 +215,14 @@ theorem malformed_route_gets_error (c : Cfg) (s : Sess) (msg : ClientMsg) (hid :
       rw [he] at hbad
       simp at hbad
     · rfl
-  exact unknown_method_gets_error c s msg hid (by rw [hs]; exact hnone)
+  exact unknown_method_gets_error c s msg hid hlt (by rw [hs]; exact hnone)
 
 /-- handler failure (error result or panic): exactly one response, an error; the body ran once at the target -/
-theorem handler_failure_gets_error (c : Cfg) (s : Sess) (msg : ClientMsg) (hid : msg.id ≠ 0)
+theorem handler_failure_gets_error (c : Cfg) (s : Sess) (msg : ClientMsg) (hid : msg.id ≠ 0) (hlt : msg.id < idWrap)
     (svc g m : String) (v : Nat) (b : Beh) (h : served c s msg = some (svc, g, m, v, b))
     (hb : b = .fail ∨ b = .panic) :
     serve c s msg = [.invoke svc g m v, .respond 0 s.sid msg.id .error] := by
-  rw [(request_served_by_target c s msg hid svc g m v b h).2]
+  rw [(request_served_by_target c s msg hid hlt svc g m v b h).2]
   rcases hb with rfl | rfl <;> simp [behResult, requestTimeout]
 
 /-! ## (3) notifications -/
@@ -205,8 +236,10 @@ theorem notify_once_no_response (fx : Fixes) (c : Cfg) (s : Sess) (msg : ClientM
       (match notified c s msg with
        | some x => [x]
        | none => []) := by
-  refine ⟨responses_serve_notify fx c s msg hid, ?_⟩
-  rw [serve_notify fx c s msg hid]
+  have hlt : msg.id < idWrap := by rw [hid]; decide
+  rw [serveWith_eq_processWith fx c s msg hlt]
+  refine ⟨responses_process_notify fx c s msg hid, ?_⟩
+  rw [process_notify fx c s msg hid]
   cases notified c s msg with
   | none => rfl
   | some x => obtain ⟨a, b, c', d⟩ := x; rfl
